@@ -70,7 +70,18 @@ func distinctSaliences(p *prng, rs []*Rule) {
 	}
 	for i, r := range rs {
 		r.Sal = perm[i%len(perm)]
+		if r.Raw != "" && r.Desc == c12EscapedDesc {
+			c12SetRaw(r) // the raw text carries the salience too
+		}
 	}
+}
+
+// a description that needs escapes in GRL (quotes, backslash, newline)
+const c12EscapedDesc = "say \"hi\" \\ and\nnext line"
+
+func c12SetRaw(r *Rule) {
+	r.Raw = ""
+	r.Raw = strings.Replace(r.grl(), "\""+r.Desc+"\"", "\"say \\\"hi\\\" \\\\ and\\nnext line\"", 1)
 }
 
 func atomMember(a *Atom, n string) *Atom { return &Atom{Kind: "member", A: a, N: n} }
@@ -246,8 +257,8 @@ func genC12(p *prng, i int) C12Scenario {
 	// a description that needs escapes in GRL (quotes, backslash, newline): the stream carries it unquoted
 	if kind == "tiny" && p.chance(1, 2) {
 		r := rules[0]
-		r.Desc = "say \"hi\" \\ and\nnext line"
-		r.Raw = strings.Replace(r.grl(), "\""+r.Desc+"\"", "\"say \\\"hi\\\" \\\\ and\\nnext line\"", 1)
+		r.Desc = c12EscapedDesc
+		c12SetRaw(r)
 	}
 	return s
 }
